@@ -303,6 +303,10 @@ for _f in OPTIONS:
     props = []
     if _f in C13_FLAGS:
         props.append("C13")
+    if _f in ("-l", "-lx", "-latrange", "-lonrange", "-elevrange", "-obsrange", "-o", "-d", "-tod", "-t"):
+        props.append("C03")
+    if _f in ("-T", "-Tagg", "-Tx"):
+        props.append("C15")
     if _f in C17_FLAGS:
         props.append("C17")
     _enumerated("verif.driver.run#WIRE:%s" % _f, tuple(props),
@@ -595,3 +599,167 @@ for _f in C17_FLAGS:
         _enumerated("verif.driver.run#FRAME:%s-reaches-an-attribute-that-output.py-reads" % _f, ("C17",),
                     "def-use over the AST of verif/output.py for the attribute(s) the driver sets for this flag", _defuse(_f),
                     ["verif.driver.run", "verif.output.Output"])
+
+
+# ----------------------------------------------------------------------------------------------
+# -m selects the metric / diagram of that name; threshold and quantile defaults; --list-* ; field lookups
+# ----------------------------------------------------------------------------------------------
+def _metric_selection():
+    def body():
+        cases = 0
+        special = {"autocorr": "Auto", "autocov": "Auto"}
+        for name, cls in verif.metric.get_all():
+            if not cls.is_valid() or cls.__module__ != "verif.metric":
+                continue
+            try:
+                cls()
+            except TypeError:
+                continue            # classes that need constructor arguments are not selectable by name
+            key = name.lower()
+            args = ["A", "B", "-m", key, "-r", "1,2", "-q", "0.1,0.9"]
+            rec = run_driver(args)
+            cases += 1
+            if rec.outcome != "ok" or rec.pl_class != "Standard" or rec.metric_agg is None:
+                return cases, {"argv": args, "outcome": rec.outcome, "output-class": rec.pl_class}
+            m = verif.metric.get(key)
+            if type(m) is not cls:
+                return cases, {"name": key, "metric.get-returned": type(m).__name__}
+        for name, cls in verif.output.get_all():
+            if not cls.is_valid() or cls.__module__ != "verif.output" or cls.__name__ in ("Standard", "Hist", "Sort", "Auto"):
+                continue
+            key = name.lower()
+            rec = run_driver(["A", "B", "-m", key, "-r", "1,2", "-q", "0.1,0.9"])
+            cases += 1
+            if rec.outcome == "ok" and rec.pl_class != cls.__name__ and not issubclass(cls, getattr(verif.output, rec.pl_class)):
+                return cases, {"name": key, "output-class": rec.pl_class, "want": cls.__name__}
+        for key, want in special.items():
+            rec = run_driver(["A", "B", "-m", key])
+            cases += 1
+            if rec.pl_class != want:
+                return cases, {"name": key, "output-class": rec.pl_class, "want": want}
+        # an unknown name is taken as the name of an other-score field
+        rec = run_driver(["A", "B", "-m", "myscore"])
+        cases += 1
+        if rec.pl_class != "Standard":
+            return cases, {"name": "myscore", "output-class": rec.pl_class}
+        return cases, None
+    return body
+
+
+_enumerated("verif.driver.run#WIRE:-m-selects-the-metric-or-diagram-of-that-name", ("C13",),
+            "every selectable metric class of verif.metric and every diagram class of verif.output (complete), plus the two autocorrelation names and an other-score name",
+            _metric_selection(), ["verif.driver.run", "verif.metric.get"])
+
+
+def _defaults():
+    def body():
+        cases = 0
+        # deterministic thresholds: 20 values evenly spaced between the smallest and largest of obs and fcst (stub: 0..2)
+        rec = run_driver(["A", "B", "-m", "ets"])
+        cases += 1
+        got = rec.pl.get("thresholds") if rec.pl else None
+        want = [float(x) for x in _np.linspace(0, 2, 20)]
+        if got is None or [round(float(x), 9) for x in got] != [round(x, 9) for x in want]:
+            return cases, {"argv": "-m ets (no -r)", "thresholds": None if got is None else [float(x) for x in got], "want": want}
+        # probabilistic thresholds: those stored in every file
+        rec = run_driver(["A", "B", "-m", "bs"])
+        cases += 1
+        got = rec.pl.get("thresholds") if rec.pl else None
+        if got is None or [float(x) for x in got] != [1.0, 2.0]:
+            return cases, {"argv": "-m bs (no -r)", "thresholds": None if got is None else [float(x) for x in got], "want": [1.0, 2.0]}
+        # quantiles: those stored in every file
+        rec = run_driver(["A", "B", "-m", "quantilescore"])
+        cases += 1
+        got = rec.pl.get("thresholds") if rec.pl else None
+        if got is None or [float(x) for x in got] != [0.1, 0.9]:
+            return cases, {"argv": "-m quantilescore (no -q)", "levels": None if got is None else [float(x) for x in got], "want": [0.1, 0.9]}
+        # given values win over the defaults, for any position of the option
+        for args in (["A", "B", "-m", "ets", "-r", "3,4"], ["-r", "3,4", "A", "B", "-m", "ets"]):
+            rec = run_driver(args)
+            cases += 1
+            if [float(x) for x in rec.pl.get("thresholds")] != [3.0, 4.0]:
+                return cases, {"argv": args, "thresholds": [float(x) for x in rec.pl.get("thresholds")]}
+        # -agg with a number selects that quantile of the values
+        rec = run_driver(BASE + ["-agg", "0.3"])
+        cases += 1
+        if rec.metric_agg != ["Quantile", {"quantile": 0.3}]:
+            return cases, {"argv": "-agg 0.3", "aggregator": rec.metric_agg}
+        # too few / too many quantiles for a metric that needs exactly two
+        for args in (["A", "-m", "spread", "-q", "0.1"], ["A", "-m", "spread", "-q", "0.1,0.5,0.9"]):
+            rec = run_driver(args)
+            cases += 1
+            if not (isinstance(rec.outcome, tuple) and rec.outcome[0] == "abort"):
+                return cases, {"argv": args, "outcome": rec.outcome}
+        return cases, None
+    return body
+
+
+_enumerated("verif.driver.run#WIRE:threshold-and-quantile-defaults", ("C13",),
+            "default thresholds for a categorical metric, a probabilistic metric and a quantile metric; explicit -r in two positions; -agg <number>; quantile-count limits",
+            _defaults(), ["verif.driver.run"])
+
+
+def _lists():
+    def body():
+        cases = 0
+        import verif.location
+
+        class ListData(RecData):
+            def __init__(self, inputs, **kw):
+                RecData.__init__(self, inputs, **kw)
+                self.times = _np.array([1325376000, 1325397600 + 61])
+                self.locations = [verif.location.Location(3, 60.5, 10.25, 100.0), verif.location.Location(18, -33.0, 151.0, 5.5)]
+        want = {"--list-times": "1325376000\n1325397661\n\n", "--list-dates": "20120101 00:00:00\n20120101 06:01:01\n\n",
+                "--list-thresholds": "Thresholds: 1 2 \n", "--list-quantiles": "Quantiles: 0.1 0.9 \n",
+                "--list-locations": "    id     lat     lon    elev\n     3   60.50   10.25   100.0\n    18  -33.00  151.00     5.5\n\n"}
+        for flag, text in want.items():
+            for args in (["A", flag], [flag, "A", "-m", "mae"]):
+                with engine.patched(verif.data, Data=ListData):
+                    import contextlib as _c
+                    buf = io.StringIO()
+                    RecData.calls = []
+                    with engine.patched(verif.input, get_input=lambda f: StubIn(f)), _c.redirect_stdout(buf):
+                        try:
+                            verif.driver.run(["verif"] + args)
+                        except SystemExit:
+                            pass
+                cases += 1
+                if buf.getvalue() != text:
+                    return cases, {"argv": args, "got": buf.getvalue(), "want": text}
+        rec = run_driver(["--list-times"])
+        cases += 1
+        if not (isinstance(rec.outcome, tuple) and rec.outcome[0] == "abort"):
+            return cases, {"argv": ["--list-times"], "outcome": rec.outcome}
+        return cases, None
+    return body
+
+
+_enumerated("verif.driver.run#WIRE:--list-options-print-the-verified-dimensions", ("C13", "C03"),
+            "the five --list-* options in two argument positions against a stub dataset; without files they must stop with an error",
+            _lists(), ["verif.driver.run"])
+
+
+def _field_lookup():
+    def body():
+        cases = 0
+        for name, want in (("obs", verif.field.Obs), ("fcst", verif.field.Fcst), ("pit", verif.field.Pit), ("spread", verif.field.Spread)):
+            cases += 1
+            if type(verif.field.get(name)) is not want:
+                return cases, {"name": name, "got": type(verif.field.get(name)).__name__}
+        for name, cls, attr, val in (("threshold:5", verif.field.Threshold, "threshold", 5.0), ("Threshold:0.25", verif.field.Threshold, "threshold", 0.25),
+                                     ("quantile:0.9", verif.field.Quantile, "quantile", 0.9), ("Quantile:.5", verif.field.Quantile, "quantile", 0.5)):
+            f = verif.field.get(name)
+            cases += 1
+            if type(f) is not cls or getattr(f, attr) != val:
+                return cases, {"name": name, "got": repr(getattr(f, "__dict__", f))}
+        for name in ("myscore", "precip_rate", "Obs2"):
+            f = verif.field.get(name)
+            cases += 1
+            if type(f) is not verif.field.Other or f.name() != name:
+                return cases, {"name": name, "got": type(f).__name__}
+        return cases, None
+    return body
+
+
+_enumerated("verif.field.get#BOUNDED:documented-field-names", ("C13",), "the four plain names, threshold:<t> / quantile:<q> in both spellings, three other-field names",
+            _field_lookup(), ["verif.field.get"])
